@@ -817,6 +817,141 @@ def rule_zerobranch(ctx):
     return res.finish(1)
 
 
+def rule_devderiv(ctx):
+    """The gradient handed to L-BFGS is built from unit_deviance_derivative, the cost from unit_deviance: they describe one
+    function only if, in every arm of the power dispatcher, the former is the derivative of the latter with respect to the
+    mean.  Both are read into the rational normal form of rules/formula.py (ln and mu^power as atoms, mu^(a + b p) =
+    mu^a (mu^p)^b), the deviance is differentiated symbolically and compared with -2 (y - mu) / V(mu), V read from
+    unit_variance."""
+    from .formula import Formula, V
+    from .calc import Unsupported, Rat, Poly
+    from fractions import Fraction
+    res = RuleResult("R-C12-devderiv", "in every arm of TweedieDistribution::unit_deviance the symbolic derivative with respect to the mean is unit_deviance_derivative (= -2 (y - mu) / unit_variance(mu))")
+    F = ctx.facts()
+    def one(name):
+        return next((f for f in F.all_fns() if f["d"]["krate"] == "linfa_linear" and f["d"]["name"] == name and (f["d"].get("self_adt") or "").endswith("TweedieDistribution")), None)
+    dev, der, var = one("unit_deviance"), one("unit_deviance_derivative"), one("unit_variance")
+    if not (dev and der and var):
+        res.missing_anchor("TweedieDistribution::unit_deviance / unit_deviance_derivative / unit_variance")
+        return res.finish(4)
+    c = dev["crate"]
+
+    def reader():
+        fm = Formula(F)
+        fm.skip_early_returns = True
+        return fm
+
+    def env_for(fm, fn, names):
+        env = {}
+        ps = [b for p_ in fn["params"] for b in pat_bindings(p_)]
+        for b in ps:
+            if b["name"] == "self":
+                env[b["local"]] = V("scal", fm.atom("self"))
+            elif b["name"] in names:
+                env[b["local"]] = V("elem", fm.atom(names[b["name"]], elem=True))
+        return env
+
+    class PowerFormula(Formula):
+        """`self.power` (a field of self) is the scalar parameter p"""
+        def expr(self, c_, e, env):
+            e0 = strip(e)
+            if e0.get("k") == "Field" and e0.get("name") == "power":
+                return V("scal", self.atom("p"))
+            return Formula.expr(self, c_, e, env)
+
+    def mk():
+        fm = PowerFormula(F)
+        fm.skip_early_returns = True
+        return fm
+    m = next((y for y in walk(dev["body"]) if y.get("k") == "Match" and y.get("src", "Normal") == "Normal" and any(z.get("k") == "Field" and z.get("name") == "power" for z in walk(y["scrut"]))), None)
+    if m is None:
+        res.undecided("%s : dispatcher" % fn_key(dev), "no match over self.power in unit_deviance (fail closed)", fn_loc(dev))
+        return res.finish(4)
+    key = fn_key(dev)
+    n = 0
+    for i, arm in enumerate(m["arms"]):
+        fmx = mk()
+        if fmx.is_err(c, arm["body"]):
+            continue
+        # which power does the arm stand for: a guard `power == c` / `(power - c).abs() < eps` fixes it, otherwise p stays symbolic
+        fixed = None
+        g = arm.get("guard")
+        if g is not None:
+            for z in walk(g):
+                if z.get("k") == "Binary" and z["op"] == "==":
+                    for side in (z["l"], z["r"]):
+                        cv = fmx.const_of(c, side)
+                        if cv is not None:
+                            fixed = cv
+                if z.get("k") == "Binary" and z["op"] == "-" and peel_refs(z["l"]).get("k") == "Path":
+                    cv = fmx.const_of(c, z["r"])
+                    if cv is not None and any(w.get("k") == "MethodCall" and w["name"] == "abs" for w in walk(g)):
+                        fixed = cv
+        n += 1
+        label = "arm %d (power %s)" % (i, fixed if fixed is not None else "symbolic")
+        res.instance("%s : %s" % (key, label))
+        try:
+            fm = mk()
+            env = env_for(fm, dev, {"y": "y", "ypred": "mu"})
+            for b in pat_bindings(arm["pat"]):
+                env[b["local"]] = V("scal", fm.atom("p"))
+            d = fm.expr(c, arm["body"], env)
+            dd = fm.diff(d.r, "mu")
+            env_v = env_for(fm, var, {"ypred": "mu"})
+            vv = fm.expr(c, var["body"], env_v)
+            y_, mu_ = fm.atom("y"), fm.atom("mu")
+            want = Rat.const(-2) * (y_ - mu_) / vv.r
+            # the derivative function itself must be that expression too
+            env_d = env_for(fm, der, {"y": "y", "ypred": "mu"})
+            fm.opaque_any_fn = None
+            got_der = None
+            try:
+                got_der = PowerFormula.expr(fm, c, der["body"], env_d)
+            except (Unsupported, TypeError, KeyError, AttributeError):
+                got_der = None
+            if fixed is not None:
+                # p := fixed: mu^p = mu^fixed for an integer power
+                def fix(r):
+                    if fixed.denominator != 1 or fixed < 0:
+                        raise Unsupported("a fixed power that is not a non-negative integer")
+                    r2 = r
+                    for a_, (kind_, arg_) in list(fm.args.items()):
+                        if kind_ == "powsym:p":
+                            rep = Poly.const(1)
+                            if arg_.den.d != {(): Fraction(1)}:
+                                raise Unsupported("power of a quotient")
+                            for _ in range(int(fixed)):
+                                rep = rep * arg_.num
+                            r2 = fm.substitute(r2, a_, rep)
+                    return fm.substitute(r2, "p", Poly.const(fixed))
+                dd, want = fix(dd), fix(want)
+            if not fm.same(dd, want):
+                res.violate("%s : derivative-mismatch:arm%d" % (key, i), "in %s the derivative of the unit deviance with respect to the mean is %s, but unit_deviance_derivative computes -2 (y - mu) / V(mu) = %s: cost and gradient of the GLM describe different functions, the optimiser's stationary point is not a minimum of the documented objective" % (label, dd.key()[:160], want.key()[:160]), fn_loc(dev, arm["body"].get("ln")))
+            else:
+                res.ok()
+                res.sample({"arm": label, "d deviance / d mu": dd.key()[:120]})
+        except (Unsupported, TypeError, KeyError, AttributeError) as e_:
+            res.undecided("%s : not-read:arm%d" % (key, i), "%s of unit_deviance is outside the vocabulary of the formula reader: %s (fail closed)" % (label, e_), fn_loc(dev, arm["body"].get("ln")))
+    # the derivative function is -2 (y - mu) / V(mu)
+    res.instance("%s : form" % fn_key(der))
+    try:
+        fm = mk()
+        env_d = env_for(fm, der, {"y": "y", "ypred": "mu"})
+        got = fm.expr(c, der["body"], env_d)
+        env_v = env_for(fm, var, {"ypred": "mu"})
+        vv = fm.expr(c, var["body"], env_v)
+        want = Rat.const(-2) * (fm.atom("y") - fm.atom("mu")) / vv.r
+        if fm.same(got.r, want):
+            res.ok()
+        else:
+            res.violate("%s : not-the-documented-form" % fn_key(der), "unit_deviance_derivative computes %s, not -2 (y - mu) / unit_variance(mu) = %s" % (got.r.key()[:160], want.key()[:160]), fn_loc(der))
+    except (Unsupported, TypeError, KeyError, AttributeError) as e_:
+        res.undecided("%s : not-read" % fn_key(der), "unit_deviance_derivative is outside the vocabulary of the formula reader: %s (fail closed)" % e_, fn_loc(der))
+    if n < 4:
+        res.missing_anchor("non-error arms of unit_deviance (found %d)" % n)
+    return res.finish(4)
+
+
 def rules(tier):
     from . import carry, c04
     from . import extrema
@@ -824,7 +959,7 @@ def rules(tier):
     from . import support, initlayout, shortcut, dispatchimpl
     from . import sizeroute
     return [sizeroute.make_rule("R-C12-sizeroute", lambda f: f["d"]["krate"] == "linfa_logistic" or (f["d"]["krate"] == "linfa_linear" and "glm" in fn_file(f)), "logistic regression and the GLM"),
-            rule_tolgrad, rule_shift, rule_zerobranch, support.make_rule("R-C12-support", "TweedieDistribution::in_range admits no non-finite target (the predicate is evaluated at +inf, -inf and NaN)",
+            rule_tolgrad, rule_shift, rule_zerobranch, rule_devderiv, support.make_rule("R-C12-support", "TweedieDistribution::in_range admits no non-finite target (the predicate is evaluated at +inf, -inf and NaN)",
                               lambda f: f["d"]["krate"] == "linfa_linear" and f["d"]["name"] == "in_range" and (f["d"].get("self_adt") or "").endswith("TweedieDistribution"),
                               2, "TweedieDistribution::in_range"),
             initlayout.make_rule("R-C12-initlayout", "linfa_logistic", "setup_init_params", "ArgminParam", 3),
